@@ -618,19 +618,25 @@ def _aead_case(u, name, key, iv, x, ad, cx, ca, cy, fl, do_tamper):
     det = {"key": key, "iv": iv, "src1": x, "src2": ad}
     y, tag = wrapm(x, ad, key, iv)
     W, UW = "belt%sWrap" % name, "belt%sUnwrap" % name
-    if ctx.case(dict(det, op=W), cls):
-        dest, mac = lib.alloc(len(x)), lib.alloc(8)
-        r = getattr(lib, W)(dest, mac, lib.mk(x), len(x), lib.mk(ad), len(ad), lib.mk(key), klen, lib.mk(iv))
-        gy, gt = lib.rd(dest, len(x)), lib.rd(mac, 8)
+    # an empty message / empty associated data is presented as (NULL, 0) in every second such case (mem.h: a buffer of
+    # length 0 is valid whatever its address)
+    nul = (len(x) + len(ad) + klen // 8) % 2 == 0
+    mke = lambda b: 0 if (nul and not b) else lib.mk(b)
+    if ctx.case(dict(det, op=W, empty_as_null=nul), cls):
+        if nul and (not x or not ad):
+            ctx.classes["aead:empty-buffer-as-NULL"] += 1
+        dest, mac = (0 if (nul and not x) else lib.alloc(len(x))), lib.alloc(8)
+        r = getattr(lib, W)(dest, mac, mke(x), len(x), mke(ad), len(ad), lib.mk(key), klen, lib.mk(iv))
+        gy, gt = (lib.rd(dest, len(x)) if dest else b""), lib.rd(mac, 8)
         lib.release()
         ctx.digest(gy, gt, r)
         if u.rc(W, sig, r, 0, det):
             u.eq(W, sig + ":ciphertext", gy, y, det)
             u.eq(W, sig + ":mac", gt, tag, det)
     if ctx.case(dict(det, op=UW, ct=y, mac=tag), "%s:unwrap:ad-%s" % (name.lower(), lencls(len(ad)))):
-        dest = lib.alloc(len(x))
-        r = getattr(lib, UW)(dest, lib.mk(y), len(y), lib.mk(ad), len(ad), lib.mk(tag), lib.mk(key), klen, lib.mk(iv))
-        gx = lib.rd(dest, len(x))
+        dest = 0 if (nul and not x) else lib.alloc(len(x))
+        r = getattr(lib, UW)(dest, mke(y), len(y), mke(ad), len(ad), lib.mk(tag), lib.mk(key), klen, lib.mk(iv))
+        gx = lib.rd(dest, len(x)) if dest else b""
         lib.release()
         ctx.digest(gx, r)
         if u.rc(UW, sig + ":accept", r, 0, det):
